@@ -8,14 +8,27 @@ TRUSTED = [
     "hand-written model props/C13/coq/Model.v of pattern.Search (literal/wildcard/range searchers, Narrow, "
     "KMP findSubstring/findSequence), util.BinSearchInRange/sort.Search, Table.SelectEntries and the sealed "
     "GetTIDsByTokenExpr composition (tied to /repo by the correspondence run, not verified code)",
+    "hand-written model props/C13/coq/ModelBlock.v of DiskTokensBlock.pack/createTokenTableEntry, the token block "
+    "generator (chunking, StartTID), writeTokensBlocks (StartIndex, BlockIndex, flushes at RegularBlockSize), "
+    "Block.unpack, Block.GetValByTID, TableEntry helpers, Provider.findBlock/GetToken/FirstTID/LastTID, and the "
+    "active TokenList (Append with the workers' arrival order as a parameter, GetValByTID, FieldTIDs, field sizes, "
+    "activeTokenProvider); byte offsets and lengths are unbounded naturals (no uint32 wrap)",
     "export hooks (build tag verif): pattern/export_verif_c13.go, frac/token/export_verif_c13.go (real Provider over a "
     "pre-filled block cache, blocks decoded by the real Block.unpack), frac/export_verif_c13.go (real writeTokensBlocks "
-    "into memory; GetTIDsByTokenExpr of a fraction's token index)",
+    "into memory; GetTIDsByTokenExpr of a fraction's token index), frac/token/export_verif_c13_blocks.go (real "
+    "Block.unpack / GetValByTID on given bytes), frac/export_verif_c13_blocks.go (real pack, TokenList.Append and state, "
+    "getTokenProvider, getTokensBlocksGenerator, getTokenHash); physical block payloads are re-packed by the real pack "
+    "per BlockIndex (zstd compression and the index file reader are not in the loop)",
     "Go harness harness/cmd/hC13 (generators, memory token provider, rendering of byte strings)",
     "numeric oracle: strconv.ParseFloat + an order-preserving integer key of finite float64 values, computed by "
     "the harness and supplied per case (float parsing itself is not modelled)",
-    "token.Provider/Block (TID -> token inside packed blocks) and the active token list are modelled as plain "
-    "indexing into the token sequence; their mechanics are exercised by the run, not proved",
+    "BlockLoader cache and disk reader (cache.Cache, disk.IndexReader, zstd) are outside the model: Load(entry) is "
+    "modelled as unpack of the physical block's bytes; goroutine scheduling of the TokenList workers enters only as "
+    "the per-call arrival order (inferred by the harness from the TIDs the real list assigned); concurrent Append "
+    "calls are not modelled",
+    "the composition 'table entries of one field cut to SelectEntries [l,r) form a served cover' is only tested "
+    "(class rand-writer runs sealed_search_bytes against the real SelectEntries+Provider+Search); see "
+    "C13_sealed_equals_scan_bytes_partial",
 ]
 ASSUME = [
     "term lists are well formed as built by the parsers: non-empty, no empty text term next to a wildcard, no two "
@@ -24,6 +37,11 @@ ASSUME = [
     "never wraps; TIDs are modelled as unbounded integers",
     "ordered providers are sorted by byte order without duplicates (sealed dictionaries)",
     "finite float keys lie in [-key(MaxFloat64), key(MaxFloat64)] (holds for every finite float64)",
+    "token lengths below 2^32-1 (a length of exactly MaxUint32 is read as the field separator: Example "
+    "C13_block_separator_collision) and physical token blocks below 2^32 bytes (offsets are stored as uint32)",
+    "every TokenList.Append batch is duplicate-free (MetaDataCollector.TokensValues holds unique tokens; a repeated "
+    "token inside one call gets two TIDs: Example C13_active_duplicate_in_batch) and a token is always split at "
+    "the same field length (field names without ':' ambiguity)",
 ]
 RULE = ("exhaustive: every pattern over {a,b,*} up to the tier's length x every token over {a,b} up to the tier's "
         "length through pattern.Search with unordered and ordered provider; all sorted dictionaries over the strings "
@@ -31,6 +49,11 @@ RULE = ("exhaustive: every pattern over {a,b,*} up to the tier's length x every 
         "multi-byte values (1/2/3/4-byte runes, partial runes, invalid UTF-8 bytes; hints cutting MaxVal inside a rune); all range "
         "end combinations over a set of numbers/non-numbers/edge floats; findSubstring exhaustively; random long "
         "strings, dictionaries, layouts; real active vs sealed fractions (one with several token blocks). "
+        "Blocks: real pack/unpack/GetValByTID on generated groups (multi-field blocks, empty tokens, 0xFF tokens, lengths "
+        "254..258 and beyond, thorough: 65535..65537), malformed/truncated block bytes by outcome class, real Provider "
+        "call sequences jumping between entries and back over real writeTokensBlocks tables (entries in the middle of a "
+        "block, several physical blocks), real TokenList.Append histories (1..4 workers) with the active provider of "
+        "every field, real TokenList -> generator -> writer -> SelectEntries+Provider+Search. "
         "non-trivial = a query with a wildcard and a text fragment, or a range with a given end (sealed: more than "
         "one table entry); distinct by input")
 
